@@ -49,6 +49,19 @@ CHECKS.update({
    TRUST + " Only error vs success (and the content on success) is compared, not which error.", WR, "6 (C08)"),
 })
 
+CHECKS.update({
+ "C06": ("sketch", "TLC checks on Sketch.tla that decoding an encoding is absorbing the encoded content (EncDec, DecodeNew, Concat actions; K_Content/K_Merge) and on Wire.tla that a concatenation decodes to the merge (W_ConcatIsMerge, W_FoldedTargets); generated histories are replayed on real sketches of all (source, target) store-kind pairs, mapping embedded or omitted, after a non-empty caller buffer: the target must hold bit for bit the per-index sums of its previous content and the sources' contents (a fresh target then answers every query like the source, exact statistics included), bounded targets the fold the spec predicts, equal mapping of the same kind, prefix intact, source snapshot unchanged.",
+   TRUST + " Weights dyadic (the class for which the +1/-1 float transform is exact; other floats are C18's matter).", SK + " (decode = merge, real vs real)", "6 (C06)"),
+ "C09": ("sketch", "Sketch.tla histories with Proto actions (ToProto->Marshal->Unmarshal->FromProtoWithStoreProvider, or the streamed EncodeProto bytes) between sketches of every store kind: rebuilt content bit for bit, equal mapping of the same kind; after every step the message unmarshalled from EncodeProto equals ToProto() field by field.",
+   TRUST + " google.golang.org/protobuf trusted. Hand-built messages mixing both bin forms: see DESIGN.md (Proto.tla).", SK, "6 (C09)"),
+ "C18": ("varint", "Varint.tla transcribes the uvarint64 / zig-zag varint64 / varfloat64 codecs as byte loops over 64-bit bit vectors; TLC checks round trip with trailing bytes, 1..9 bytes, size functions, strict-prefix EOF (V_Corpus, ~400 words of every bit-length class) and framing on all byte strings of length <= 2 and structured strings up to length 10 (V_Strings); every vector is an implementation test of the real codecs; values drawn in Go are encoded by the real encoders and TLC validates bytes and sizes (Trace_Varint).",
+   TRUST + " The float transform bits(v+1)-bits(1) / (v+1)-1 is applied by the harness.", "TLA+ spec of the codecs as bit-vector state machines (Varint.tla) + TLC vectors as implementation tests + TLC trace validation of real encoder output", "6 (C18)"),
+ "C19": ("mappingid", "MappingId.tla: a mapping is (kind, gamma token, offset token) and its binary, protobuf and streamed forms are images of the triple; TLC checks M_RoundTrip, M_Injective, M_Equality over all ordered pairs and emits them; on real mappings Equals must agree on every ordered pair, every form read back must be equal, of the same kind and agree bitwise on Index/Value/LowerBound at 200 probes; from-accuracy == from-base-and-offset.",
+   TRUST + " Tokens stand for values >= 0.1% apart.", "TLA+ spec (MappingId.tla) + TLC enumeration of ordered pairs replayed on real mappings", "6 (C19)"),
+ "C20": ("dataset", "Dataset.tla (lazy in-place sort, arrival order, Merge appends) is checked by TLC to refine the multiset specification (D_Refines) for every interleaving of Add/Merge/queries; every generated history is replayed on the real Dataset with == comparison of Lower/Upper/Quantile at q=a/8, NaN cases, Min, Max, Count, Sum; large datasets at q=k/(n-1) and float neighbours against big.Rat ranks.",
+   TRUST + " For non-dyadic q the rank of either the exact or the float64 product q(n-1) is accepted.", "TLA+ spec (Dataset.tla) + TLC refinement check + behaviours replayed on the real Dataset", "6 (C20)"),
+})
+
 NA = {
  "C03": "pure float64 numerics of one function over ~2^62 inputs; TLC has no floating point and 32-bit integers, so a TLA+ model would only be a test enumerator with the oracle in Go (DESIGN.md section 7)",
 }
@@ -86,6 +99,9 @@ m = {
     "serves_properties": ["C01", "C02", "C10", "C11", "C12", "C13", "C14", "C15", "C16"], "kind_free_text": "TLA+ specification of DDSketch / DDSketchWithExactSummaryStatistics over value tokens; TLC model checking; behaviours replayed on real sketches"},
    {"name": "wire", "path": "spec/Wire.tla spec/Gen_Wire.tla spec/Trace_Wire.tla harness/cmd/vcheck/wire.go harness/cmd/vcheck/wirefmt.go",
     "serves_properties": ["C07", "C08"], "kind_free_text": "TLA+ specification of the documented block format; TLC enumerates streams; independent serializer/tokenizer binds it to the real encoder and decoders"},
+   {"name": "varint", "path": "spec/Varint.tla spec/Gen_Varint.tla spec/Trace_Varint.tla harness/cmd/vcheck/varint.go", "serves_properties": ["C18"], "kind_free_text": "bit-vector TLA+ model of the codecs; vectors and trace validation"},
+   {"name": "mappingid", "path": "spec/MappingId.tla harness/cmd/vcheck/mappingid.go", "serves_properties": ["C19", "C13"], "kind_free_text": "mapping identity through serialized forms; constructor acceptance table"},
+   {"name": "dataset", "path": "spec/Dataset.tla spec/Gen_Dataset.tla harness/cmd/vcheck/dataset.go", "serves_properties": ["C20"], "kind_free_text": "implementation-shaped dataset refined to a multiset"},
    {"name": "store", "path": "spec/Store.tla spec/IndexMap.tla spec/MC_Store.tla spec/Gen_Store.tla spec/Trace_Store.tla harness/cmd/vcheck/store*.go",
     "serves_properties": ["C04", "C05"], "kind_free_text": "TLA+ specification of the bin stores; TLC model checking; behaviours replayed on real stores; recorded traces validated by TLC"},
  ],
